@@ -152,7 +152,7 @@ test_sequence = [
         # ops_set
         memory_only_ops,
         # incompatible_pack_flags
-        PassFlags.Npu | PassFlags.Cpu,
+        PassFlags.Npu | PassFlags.Cpu | PassFlags.Main,
         # flags_to_set
         PassFlags.MemoryOnly | PassFlags.Main,
         # flags_to_clear
